@@ -146,7 +146,7 @@ class C01(Prop):
         # the declared WebSocket maximum (and 16 MiB + 1, above the WS library's default frame limit), both directions: delivered intact
         core.tie_run(stats, "stream", ["gen-sizes", tier, "W"], lambda c, t: True, cmp)
         # two senders on one endpoint (the send lock): the per-connection sequence is an interleaving of whole messages
-        core.tie_run(stats, "stream", ["gen-mt", seed + 3, 2, "F"], lambda c, t: True, cmp)
+        core.tie_run(stats, "stream", ["gen-mt", seed + 3, 2, "FW"], lambda c, t: True, cmp)
         # through the node layer: messages that arrive before the listener call keep their order
         core.tie_run(stats, "node", ["gen-early", seed + 9, 2], lambda c, t: True, cmp)
         if th:
@@ -179,6 +179,9 @@ class C11(Prop):
         core.tie_run(stats, "stream", ["gen-e2e", seed + 4, 300 if th else 60, "T"], self.nontrivial, cmp)
         # through the node layer: chunks that arrive before for_each / for_each_async / enqueue is called
         core.tie_run(stats, "node", ["gen-tcp"], self.nontrivial, cmp)
+        # a multi-MiB send() to a reader that stalls for seconds (the send loop must neither give up nor lose
+        # its place), with small buffers travelling the other way meanwhile
+        core.tie_run(stats, "stream", ["gen-duplex", "T", 8000 if th else 3000], lambda c, t: True, cmp)
         if th:
             core.tie_run(stats, "stream", ["gen-e2e", seed + 5, 40, "T", "big"], self.nontrivial, cmp)
 
@@ -292,6 +295,8 @@ class C18(C03):
     def tie(self, stats, tier, seed):
         cmp = getattr(self, "compare", True)
         core.tie_run(stats, "net", ["gen", seed + 40, 600 if tier == "thorough" else 60], self.nontrivial, cmp)
+        # thread release under a persistent accept() error (descriptor table full, a connection waiting)
+        core.tie_run(stats, "net", ["gen-emfile"], lambda c, t: True, cmp)
 
 
 class C13(Prop):
@@ -556,6 +561,7 @@ class C16(Prop):
         core.tie_run(stats, "vq", ["gen-race"], self.nontrivial, cmp)
         # the expiry wake-up and a cancel command ready together: None only after the whole timeout
         core.tie_run(stats, "vq", ["gen-expirerace", 4000 if tier == "thorough" else 1000], self.nontrivial, cmp)
+        core.tie_run(stats, "vq", ["gen-deadlinerace", 2000 if tier == "thorough" else 300], self.nontrivial, cmp)
 
     def search(self, tier, seed):
         st = core.Stats()
